@@ -42,6 +42,7 @@ func main() {
 		{"Balance.lean", extractBalance},
 		{"Conc.lean", extractConc},
 		{"Listener.lean", extractListener},
+		{"Cmp.lean", extractCmp},
 	}
 	for _, g := range gens {
 		s, err := g.fn(*repo)
